@@ -17,7 +17,7 @@ import (
 func init() {
 	Register("epochs", runEpochs)
 	RegisterPlan(Plan{Prop: "C15", Engine: "epochs", Quick: 160, Thorough: 6000, Level: "exploration", MinCases: 8,
-		Rule: "block-time sequences (seeded PRNG) over 3-7 epoch identifiers: the stock minute/hour/day/week plus generated ones with durations from 1 ns to 1e9 s, start times in the past / at genesis / in the future, some already counting at genesis with CurrentEpoch k>1. Block time steps mix: equal times, sub-duration steps, exactly on start+n*duration, one nanosecond either side, multi-duration gaps. After every block the stored EpochInfos must equal a 10-line reference clock and the H3 trace must be exactly, per ticking identifier in store order, AfterEpochEnd(id,n) to ⟨feedistribution, operator, dogfood, exomint, avs⟩ then BeforeEpochStart(id,n+1) to the same five. Distinct = ⟨relation of block time to the boundary (before / on / 1ns-after / after / multi-gap), first tick?, #identifiers ticking in the block⟩."})
+		Rule: "block-time sequences (seeded PRNG) over 3-7 epoch identifiers: the stock minute/hour/day/week plus generated ones with durations from 1 ns to 1e9 s, start times in the past / at genesis / in the future, some already counting at genesis (a third of those with a start time that does not match the counter: relative clock rule only) with CurrentEpoch k>1. Block time steps mix: equal times, sub-duration steps, exactly on start+n*duration, one nanosecond either side, multi-duration gaps. After every block the stored EpochInfos must equal a 10-line reference clock and the H3 trace must be exactly, per ticking identifier in store order, AfterEpochEnd(id,n) to ⟨feedistribution, operator, dogfood, exomint, avs⟩ then BeforeEpochStart(id,n+1) to the same five. Distinct = ⟨relation of block time to the boundary (before / on / 1ns-after / after / multi-gap), first tick?, #identifiers ticking in the block⟩."})
 }
 
 var subscriberOrder = []string{
